@@ -109,8 +109,8 @@ REGISTRY: dict[str, dict] = {
                      "runtime behaviour the model cannot exhibit (claimed partial)"],
     ),
     "C18": dict(
-        modules=["C18", "C18Full", "C18Bytes", "C03", "Translated"],
-        theorems=[T + "Translated.insert_eq", T + "Translated.make_last_to_evict_eq", T + "Translated.entry_index_eq", T + "C18_triples", T + "C18_quads", T + "C18_graphs", T + "C18_prefix_on_error",
+        modules=["C18", "C18Full", "C18Bytes", "C03", "Translated", "TranslatedEnc"],
+        theorems=[T + "Translated.start_row_eq", T + "Translated.end_row_eq", T + "Translated.insert_eq", T + "Translated.make_last_to_evict_eq", T + "Translated.entry_index_eq", T + "C18_triples", T + "C18_quads", T + "C18_graphs", T + "C18_prefix_on_error",
                   T + "C18_triples_bytes", T + "C18_quads_bytes", T + "C18_graphs_bytes",
                   T + "C18_regression_prefix", T + "C18_regression_datatype", T + "C18_regression_name", T + "C18_regression_fits",
                   T + "C03_triples", T + "C03_quads", T + "C03_graphs"],
@@ -120,8 +120,8 @@ REGISTRY: dict[str, dict] = {
              "xsd:string literals. Non-trivial = the statement overflows a table.",
     ),
     "C20": dict(
-        modules=["C18", "C20Full", "C20Graph", "C14Full"],
-        theorems=[T + "C20_triples", T + "C20_quads", T + "C20_graphs", T + "C20_refuses_after_dirty_rejection", T + "broken_refuses", T + "idle_irrelevant",
+        modules=["C18", "C20Full", "C20Graph", "C14Full", "TranslatedEnc", "Translated"],
+        theorems=[T + "Translated.start_row_eq", T + "Translated.end_row_eq", T + "Translated.make_last_to_evict_eq", T + "Translated.insert_eq", T + "C20_triples", T + "C20_quads", T + "C20_graphs", T + "C20_refuses_after_dirty_rejection", T + "broken_refuses", T + "idle_irrelevant",
                   T + "C20_regression_witness", T + "C20_rejection_leaves_flow_untouched", T + "C20_clean_rejection_leaves_no_trace",
                   T + "C20_prefix_valid", T + "C20_prefix_accepted"],
         rule="SERSTEP: Triple/Quad/GraphStream driven statement by statement by a catch-and-continue loop, each statement made "
